@@ -10,7 +10,11 @@ prop(
         dict(run="^TestPropCommentRuns$",
              quick=dict(checks=1440, shards=16, timeout=600, shrinktime="10s"),
              thorough=dict(checks=64000, shards=16, timeout=3600, shrinktime="60s")),
+        dict(run="^TestPropBinaryCI$",
+             quick=dict(checks=32, shards=4, timeout=600, shrinktime="10s"),
+             thorough=dict(checks=960, shards=16, timeout=3600, shrinktime="30s")),
     ],
+    needs_bin=True,
     rule="a case = platform (github cannot delete / gitlab can) x maxComments in {1,2,5,50} x showDuplicates x a generated pull request "
          "(1-3 rule files, or 31-36 small ones; modified / new / deleted / renamed; one YAML document or several separated by '---' (whole documents and the leading '---' kept, added or removed by the pull request), comment lines that look like diff syntax, either version of a file possibly without a final newline; unified diff derived from a whole-file edit script in git order, with the 'No newline at end of file' marker) x a "
          "comment population (pint's own comments left by an earlier run, of which some are current and some stale; hand-made stale / moved / "
@@ -22,7 +26,12 @@ prop(
          "non-ASCII, multi-line and very long text) + settle runs repeating the last report set. Reports are synthetic Problems on rules "
          "parsed by pint's parser from the generated files, confined to rules with at least one line in the diff, ModifiedLines computed as "
          "discovery.GitBranchFinder does. Each run is reporter.NewCommentReporter(NewGithubReporter|NewGitLabReporter).Submit. "
-         "Non-trivial: >= 3 generated runs, more uncovered problems before run 0 than maxComments, and the population holds both a stale own "
+         "Binary layer (TestPropBinaryCI): the real `pint ci` binary in a generated git repository whose pull-request branch introduces n real "
+         "alerts/template problems, against the same fakes, with repository { github|gitlab { maxComments = 1..5 } } and n > maxComments, run "
+         "ceil(n/max)+2 times; environment plain / GitHub Actions runner variables with owner+repo+baseuri in the configuration / everything but "
+         "maxComments detected from GITHUB_REPOSITORY, GITHUB_API_URL, GITHUB_REF; checks budget per run as configured, no equal comment, coverage, "
+         "convergence, two silent final runs (always non-trivial). "
+         "Non-trivial (in-process property): >= 3 generated runs, more uncovered problems before run 0 than maxComments, and the population holds both a stale own "
          "comment and a foreign positional one. Classes: platform : maxComments : evolution operations used : scenario features.",
     level_text="Generated-input search (rapid, fixed seeds) over run sequences against an explicit model of the statement: (i) at most maxComments "
                "creations per run, (ii) nothing created that equals (path, line, side, trimmed text) a comment that existed before the run, (iii) a "
